@@ -46,6 +46,7 @@ type EngScenario struct {
 	Quiet    bool       `json:"quiet"`   // a user instantiation-aware processor ordered FIRST that answers false to PostProcessAfterInstantiation
 	Runners  []int      `json:"runners"` // nodes that are application runners (held by the App's runner slice)
 	ROrder   []int      `json:"rorder"`  // the runner nodes in candidate iteration order (computed here from order)
+	All      bool       `json:"all"`     // finally look every pool component up through Factory.GetComponents(InterfaceType(Nd))
 }
 
 // quietProc keeps the library's default answer (false) to PostProcessAfterInstantiation.  That only skips ITS OWN
@@ -633,6 +634,22 @@ func runEngScenario(sc *EngScenario) []map[string]any {
 				e.emit("lookupReturn", id, map[string]any{"ok": lerr == nil, "res": e.objVer(c)})
 			}()
 		}
+	}
+	if sc.All && !e.aborted && err == nil {
+		func() {
+			defer func() {
+				if x := recover(); x != nil {
+					e.emit("lookupPanic", 0, nil)
+				}
+			}()
+			// GetComponents looks every matching DEFINITION up by name (creating lazy ones on the way)
+			cs, lerr := ap.GetComponents(container.InterfaceType(reflect.TypeOf((*Nd)(nil)).Elem()))
+			res := []any{}
+			for _, c := range cs {
+				res = append(res, e.objVer(c))
+			}
+			e.emit("lookupAll", 0, map[string]any{"ok": lerr == nil, "res": res})
+		}()
 	}
 	hdr := map[string]any{"ev": "scenario", "sc": sc}
 	return append([]map[string]any{hdr}, e.events...)
